@@ -17,7 +17,9 @@ reg("C18", "exhaustive enumeration + rapidcheck (src/c18.cc)", "exploration",
     "All 12.2 M strings over {'/','.','a','b',0xC3} up to length 10 (thorough: 12, 305 M) and random strings up to 64 KiB are "
     "canonicalised by the real function (ASan build of the current tree) and compared with an independent split/drop/join "
     "specification: refusal iff a '..' component, exact result, no growth, idempotence, shape, guard bytes; "
-    "is_filename_sane compared with its specification on every string. Complete for the enumerated space, sampled beyond.",
+    "is_filename_sane compared with its specification on every string. Complete for the enumerated space, sampled beyond. A second layer "
+    "(Hypothesis) checks the funnel: tar member names and hard link targets, --exclude-dir, pack file paths, link targets and glob targets, "
+    "rdsquashfs path arguments (-c -l -s -x), sqfs2tar -r/-d - any spelling must behave like the canonical one, '..' must be refused.",
     "Trusts the 25-line specification in src/c18.cc, clang ASan/UBSan, and that the five-letter alphabet covers the "
     "character classes the code distinguishes ('/', '.', other).", "DESIGN.md 4/C18")
 
@@ -61,8 +63,8 @@ reg("C15", "Hypothesis -> reference compressors -> tar2sqfs / sqfs2tar -c (asan)
 
 reg("C16", "Hypothesis -> gensquashfs --pack-dir -> rdsquashfs -d/-u -> gensquashfs -F (asan) -> independent parser", "exploration",
     "round trip (describe -> unpack -> repack) compared through an independent parser",
-    "Trees whose names, symlink targets and unpack roots carry every quoting-relevant byte (space, tab, quote, backslash, '#', CR, leading '-', "
-    "high bytes) in first/middle/last position are packed without the pack-file parser, described (with and without --unpack-root, absolute "
+    "Trees whose names, symlink targets and unpack roots carry every quoting-relevant byte (space, tab, CR, VT, FF, quote, backslash, '#', leading '-', "
+    "high bytes) in first/middle/last position, with a root directory that has permissions and an owner of its own, are packed without the pack-file parser, described (with and without --unpack-root, absolute "
     "and relative), unpacked and re-packed from the listing; the independent parser must see the same paths, types, modes, owners, targets, "
     "device numbers and contents.", "Trusts lib/sqfsimg.py; newline is excluded as the statement says; hard-link groups and time stamps are not compared.",
     "DESIGN.md 4/C16")
@@ -98,7 +100,8 @@ reg("C11", "Hypothesis trees x readdir permutation shim (LD_PRELOAD) -> gensquas
     "metamorphic: image bytes identical under every injected permutation of readdir() results",
     "Materialised trees (with multiply-linked files) are packed by gensquashfs --pack-dir / a glob line while src/readdir_shim.c returns each "
     "directory's entries reversed, sorted and in seeded random orders; sha256(image) must be identical. A difference confined to inode "
-    "numbering of multiply-linked files is the recorded known finding; anything else is a violation.",
+    "numbering of multiply-linked files is the recorded known finding; anything else is a violation. Glob lines carry restrictive -type lists, "
+    "-name/-path filters and explicit link lines onto scanned names; one directory may pretend to be a mount point (with -o).",
     "Order is permuted at libc readdir(); plain build.", "DESIGN.md 4/C11")
 reg("C14", "Hypothesis inputs x SIGKILL before every output-file write (LD_PRELOAD shim) -> readers", "fault_enumeration",
     "crash-point enumeration: every prefix of the output write sequence is offered to all readers and an independent parser",
@@ -113,7 +116,8 @@ reg("C02", "Hypothesis inputs x (-j, -Q, -X, schedule perturbation shim, environ
     "sleeps around every mutex/condvar operation of the worker pool (LD_PRELOAD), different TZ/locale/umask/HOME/cwd and a fake wall clock; "
     "every image must equal the serial build's image byte for byte; one ThreadSanitizer run per case must be free of race reports.",
     "Real-thread perturbation samples interleavings; the controlled scheduler enumerates them for small block processor programs at the "
-    "granularity of the pool's mutex/condvar operations. SOURCE_DATE_EPOCH and the command line are inputs.", "DESIGN.md 4/C02, 8.2")
+    "granularity of the pool's mutex/condvar operations. The command line is an input, and so is SOURCE_DATE_EPOCH unless --defaults mtime= is "
+    "given (then it is varied like the rest of the environment); a third of the pack-file inputs carry per-file flags from a sort file.", "DESIGN.md 4/C02, 8.2")
 reg("C08", "Hypothesis content multisets -> gensquashfs built with a 2..8 bit checksum -> independent parser", "exploration",
     "property-based read-back under forced checksum collisions (link-time weakened hash), both directions of the dedup property",
     "The block checksum is cut to 2-8 bits at link time so that many distinct blocks and tails of equal size collide; generated multisets of "
